@@ -10,13 +10,15 @@ namespace Nuts.Proto.Live
 
 /-! ### Part F: oracles' contracts, pages, prev-closedness of sorted replies -/
 
-/-- **the IBLT decode contract**: a successful decode returns exactly the refs the peer has and we lack; decoding
-    succeeds when there is no difference; subtracting two well-formed IBLTs never errors. Hypothesis of the liveness
-    theorems; false only on a 64-bit hash-sum collision; measured on the real `tree.Iblt` by the harness. -/
+/-- **the IBLT decode contract**, for duplicate-free ref lists (`State.IBLT` inserts every transaction once): a successful
+    decode returns exactly the refs the peer has and we lack; decoding succeeds when there is no difference; subtracting two
+    well-formed IBLTs never errors. Hypothesis of the liveness theorems; since the deepening round it is PROVED for the
+    modelled `tree.Iblt` (`Props.C07.iblt_decode_contract`, `modelled_iblt_satisfies_DC`) from hash faithfulness — false only
+    on a 64-bit hash-sum collision — and still measured on the real `tree.Iblt` by the harness. -/
 structure DC (env : Env) : Prop where
-  exact : ∀ loc peer m, env.decode loc (.ofSet peer) = .ok m → ∀ r, r ∈ m ↔ (r ∈ peer ∧ r ∉ loc)
-  empty : ∀ loc peer, (∀ r, r ∈ loc ↔ r ∈ peer) → ∃ m, env.decode loc (.ofSet peer) = .ok m
-  noerr : ∀ loc peer, env.decode loc (.ofSet peer) ≠ .err
+  exact : ∀ loc peer m, loc.Nodup → peer.Nodup → env.decode loc (.ofSet peer) = .ok m → ∀ r, r ∈ m ↔ (r ∈ peer ∧ r ∉ loc)
+  empty : ∀ loc peer, loc.Nodup → peer.Nodup → (∀ r, r ∈ loc ↔ r ∈ peer) → ∃ m, env.decode loc (.ofSet peer) = .ok m
+  noerr : ∀ loc peer, loc.Nodup → peer.Nodup → env.decode loc (.ofSet peer) ≠ .err
 
 /-- `sort.Slice(unsorted, clock <=)` returns a clock-sorted rearrangement -/
 structure OrderOK (env : Env) : Prop where
@@ -55,6 +57,22 @@ theorem prevClosed_of_sorted {b : List Tx} (hb : DagOK b) : ∀ (l : List Tx) (h
 
 /-- the page of a transaction -/
 def pg (cfg : Cfg) (t : Tx) : Nat := pageOf cfg t.clock
+
+theorem dagOK_refs_nodup {d : List Tx} (h : DagOK d) : (d.map (·.ref)).Nodup := by
+  induction h with
+  | nil => exact List.nodup_nil
+  | cons tx d _ _ hnp _ _ _ ih =>
+    rw [List.map_cons, List.nodup_cons]
+    refine ⟨?_, ih⟩
+    intro hm
+    obtain ⟨t, ht, hr⟩ := List.mem_map.mp hm
+    have : present d tx.ref = true := present_iff.mpr ⟨t, ht, hr⟩
+    rw [hnp] at this; cases this
+
+/-- the ref list `State.IBLT` digests has no duplicates -/
+theorem ibltSet_nodup {cfg : Cfg} {d : List Tx} (h : DagOK d) (lc : Nat) : (ibltSet cfg d lc).Nodup := by
+  unfold ibltSet
+  exact ((List.filter_sublist (l := d)).map (·.ref)).nodup (dagOK_refs_nodup h)
 
 theorem mem_ibltSet {cfg : Cfg} {d : List Tx} {lc : Nat} {r : Ref} :
     r ∈ ibltSet cfg d lc ↔ ∃ t ∈ d, t.ref = r ∧ pg cfg t ≤ pageOf cfg lc := by
